@@ -208,6 +208,37 @@ def unopenable_files(fam, tier):
                         break
 
 
+def descriptor_limit(fam, tier):
+    """a batch larger than the limit on open files (RLIMIT_NOFILE lowered to 64): resource use must be bounded by the
+    number of workers, not by the size of the batch"""
+    import subprocess, resource
+    with cli.Sandbox("c18f-nofile") as sb:
+        cache = {}
+        for mode in ("files", "check"):
+            for threads in (1, 4):
+                d = sb.path("n")
+                shutil.rmtree(d, ignore_errors=True)
+                os.makedirs(d)
+                content = b"a   ;b  ;\n" if mode == "files" else b"a;\n"
+                ok, formatted = solo(sb, cache, content)
+                n = 150 if tier == "quick" else 600
+                for i in range(n):
+                    open(os.path.join(d, f"f{i:04d}.pas"), "wb").write(content)
+                def limit():
+                    resource.setrlimit(resource.RLIMIT_NOFILE, (64, 64))
+                r = subprocess.run([cli.CLI, "--config-file", sb.empty_cfg, f"--mode={mode}", d], stdout=subprocess.PIPE, stderr=subprocess.PIPE,
+                                   env=dict(os.environ, RAYON_NUM_THREADS=str(threads)), preexec_fn=limit)
+                fam.case(nontrivial=True)
+                fam.transitions += 1
+                case = {"oracle": "c18free", "open_file_limit": 64, "files": n, "mode": mode, "threads": threads, "no_confirm": True}
+                if r.returncode != 0:
+                    fam.fail("C18", "free-running:exit-status", f"exit {r.returncode} for {n} good files under a limit of 64 open files; stderr {r.stderr[:200]!r}", case)
+                    continue
+                bad = [i for i in range(n) if open(os.path.join(d, f"f{i:04d}.pas"), "rb").read() != (formatted if mode == "files" else content)]
+                if bad:
+                    fam.fail("C18", "free-running:file-differs-from-solo-result", f"{len(bad)} of {n} files differ from their stand-alone result under a limit of 64 open files", case)
+
+
 def explore(tier, seed):
     kinds = list(KINDS)
     batches = []
@@ -235,6 +266,7 @@ def explore(tier, seed):
     exit_status_counts(fam, tier)
     stdout_sections(fam, tier)
     unopenable_files(fam, tier)
+    descriptor_limit(fam, tier)
     fam.states = fam.len
     fam.samples = [{"kinds": list(batches[3]), "threads": threads}]
     return [fam]
